@@ -49,15 +49,15 @@ func DeepEqual(x, y Node) bool {
 		}
 		return xv == yv
 	case Kind_Int:
-		xv, err := x.AsInt()
+		xneg, xmag, err := intValue(x)
 		if err != nil {
 			panic(err)
 		}
-		yv, err := y.AsInt()
+		yneg, ymag, err := intValue(y)
 		if err != nil {
 			panic(err)
 		}
-		return xv == yv
+		return xneg == yneg && xmag == ymag
 	case Kind_Float:
 		xv, err := x.AsFloat()
 		if err != nil {
@@ -153,4 +153,16 @@ func DeepEqual(x, y Node) bool {
 	default:
 		return false
 	}
+}
+
+// intValue returns the integer held by an int-kind node as a sign flag and the
+// two's complement bits of the value, so that a UintNode holding a value above
+// the int64 range (for which AsInt fails) can be compared as well.
+func intValue(n Node) (negative bool, bits uint64, err error) {
+	if un, ok := n.(UintNode); ok {
+		v, err := un.AsUint()
+		return false, v, err
+	}
+	v, err := n.AsInt()
+	return v < 0, uint64(v), err
 }
